@@ -294,7 +294,7 @@ def run(fx, rep):
                     rep.ok('R1', key, loc, '\\%s -> %s' % (ch, ok[0]))
                 elif any(o in wants for o in ok):
                     extra = [o for o in ok if o not in wants]
-                    rep.violation('R1', key + '/extra-output', loc, '%s literal: escape \\%s can also append %s (expected exactly U+%04X)' % (kind, ch, extra, single[ch]))
+                    rep.violation('R1', key + '/extra-output:' + ';'.join(extra).replace(' ', ''), loc, '%s literal: escape \\%s can also append %s (expected exactly U+%04X)' % (kind, ch, extra, single[ch]))
                 else:
                     rep.violation('R1', key + '/wrong-code-point', loc, '%s literal: escape \\%s appends %s, specification says U+%04X' % (kind, ch, ok, single[ch]))
             elif ch in ref['hex2'] or (ch in ref['hex4'] or ch in ref['hex8']):
